@@ -6,6 +6,7 @@ import (
 	"fmt"
 	"go/token"
 	"go/types"
+	"reflect"
 	"strings"
 
 	"golang.org/x/tools/go/ssa"
@@ -438,7 +439,15 @@ func ruleStatusFlow(c *Ctx, rule string) {
 		key := emitKey(w, e)
 		errArg, ok := statusProtoOfError(e.Payload["CloseStream.Status"])
 		good := ok && origin(errArg) == ssa.Value(a.ServerFinish.Params[1])
-		c.check(good, rule, key+": Status is the finishing error's status", w.At(e.Alloc), "Status = status.FromError(err).Proto() with err the finishing function's parameter", "close_stream Status is "+desc(e.Payload["CloseStream.Status"])+": the caller would not see exactly the status the handler returned (code, message and details)")
+		how := "Status = status.FromError(err).Proto() with err the finishing function's parameter"
+		if ok && !good {
+			// ... or the error latched by the FIRST call of the finishing function (CAS(nil, {err}) then Load)
+			if cas, fr, isL := latchedFinishErr(a.ServerFinish, errArg); isL {
+				good = true
+				how = "Status = status.FromError(first).Proto() with first the parameter latched once in " + fr.String() + " by the compare-and-swap at " + w.At(cas)
+			}
+		}
+		c.check(good, rule, key+": Status is the finishing error's status", w.At(e.Alloc), how, "close_stream Status is "+desc(e.Payload["CloseStream.Status"])+": the caller would not see exactly the status the handler returned (code, message and details)")
 		tv := e.Payload["CloseStream.ResponseTrailers"]
 		okT := false
 		if call, isCall := origin(tv).(*ssa.Call); isCall {
@@ -1321,4 +1330,141 @@ func ruleServerCancel(c *Ctx, rule4, rule7 string) {
 		}
 	done:
 	}
+}
+
+// latchedFinishErr: v is F.Load().<err> for an atomic pointer field F of the receiver, and fin contains
+// F.CompareAndSwap(nil, &holder{<fin's error parameter>}) dominating that load: v is the error of the first call.
+func latchedFinishErr(fin *ssa.Function, v ssa.Value) (*ssa.Call, FieldRef, bool) {
+	ld, ok := origin(v).(*ssa.UnOp)
+	if !ok || ld.Op != token.MUL {
+		return nil, FieldRef{}, false
+	}
+	fa, ok := ld.X.(*ssa.FieldAddr)
+	if !ok {
+		return nil, FieldRef{}, false
+	}
+	load, ok := fa.X.(*ssa.Call)
+	if !ok || !isAtomicPointerMethod(load, "Load") || len(load.Call.Args) < 1 {
+		return nil, FieldRef{}, false
+	}
+	fr, _, ok := fieldOfAddr(load.Call.Args[0])
+	if !ok {
+		return nil, FieldRef{}, false
+	}
+	var found *ssa.Call
+	allInstrs(fin, func(in ssa.Instruction) {
+		cas, isC := in.(*ssa.Call)
+		if !isC || !isAtomicPointerMethod(cas, "CompareAndSwap") || len(cas.Call.Args) != 3 {
+			return
+		}
+		if f2, _, ok2 := fieldOfAddr(cas.Call.Args[0]); !ok2 || f2 != fr {
+			return
+		}
+		if !isNilConst(cas.Call.Args[1]) {
+			return
+		}
+		al, isA := stripConv(cas.Call.Args[2]).(*ssa.Alloc)
+		if !isA {
+			return
+		}
+		holdsParam := false
+		for _, r := range *al.Referrers() {
+			if fad, isF := r.(*ssa.FieldAddr); isF {
+				for _, r2 := range *fad.Referrers() {
+					if st, isS := r2.(*ssa.Store); isS && st.Addr == ssa.Value(fad) && len(fin.Params) > 1 && paramAtEntry(fin, st.Val, st) {
+						holdsParam = true
+					}
+				}
+			}
+		}
+		if holdsParam && load.Parent() == fin && dominates(cas, load) {
+			found = cas
+		}
+	})
+	return found, fr, found != nil
+}
+
+// paramAtEntry: v, read at `at`, is the finishing function's error parameter as passed by the caller.
+func paramAtEntry(fin *ssa.Function, v ssa.Value, at ssa.Instruction) bool {
+	v = stripConv(v)
+	if v == ssa.Value(fin.Params[1]) {
+		return true
+	}
+	// spilled parameter (reassigned later): the only store dominating `at` is the initial one
+	if u, ok := v.(*ssa.UnOp); ok && u.Op == token.MUL {
+		if cell, ok := u.X.(*ssa.Alloc); ok {
+			var doms []*ssa.Store
+			for _, r := range *cell.Referrers() {
+				if st, ok := r.(*ssa.Store); ok && st.Addr == ssa.Value(cell) && st.Parent() == fin && dominates(st, u) {
+					doms = append(doms, st)
+				}
+			}
+			return len(doms) == 1 && stripConv(doms[0].Val) == ssa.Value(fin.Params[1])
+		}
+	}
+	return false
+}
+
+func isAtomicPointerMethod(call *ssa.Call, method string) bool {
+	n := calleeName(call)
+	return strings.HasPrefix(n, "(*sync/atomic.Pointer[") && strings.HasSuffix(n, ")."+method)
+}
+
+// ruleOutcomeLatched (C06.9 / C02.1b): the outcome the server reports is that of the FIRST finishing call.
+func ruleOutcomeLatched(c *Ctx, rule string) {
+	c.rule(rule, "first cause wins: the server finishing function cancels the stream context before it can take the write mutex (rule 'cancel before lock'), and that cancel makes a handler blocked in SendMsg/RecvMsg return a context error and call the finishing function itself; so the status written to close_stream must be latched (compare-and-swap from nil) before the cancel, not taken from whichever call reaches the mutex first")
+	w := c.W
+	a := w.Anchors()
+	if !c.need(rule, "ServerFinish", a.ServerFinish) {
+		return
+	}
+	fin := a.ServerFinish
+	var cancels []ssa.Instruction
+	allInstrs(fin, func(in ssa.Instruction) {
+		if _, isDefer := in.(*ssa.Defer); isDefer {
+			return
+		}
+		if isCancelFieldCall(in, a.SS.Obj().Name()) {
+			cancels = append(cancels, in)
+		}
+	})
+	n := 0
+	for _, e := range c.realEmitSites() {
+		if e.Kind != "ServerToClient_CloseStream" || topFn(e.Fn) != fin {
+			continue
+		}
+		n++
+		key := emitKey(w, e) + ": status is the first finishing call's"
+		errArg, ok := statusProtoOfError(e.Payload["CloseStream.Status"])
+		if !ok {
+			c.fail(rule, key, w.At(e.Alloc), "close_stream Status is "+desc(e.Payload["CloseStream.Status"])+", not the status of an error")
+			continue
+		}
+		if len(cancels) == 0 {
+			c.ok(rule, key, w.At(e.Alloc), "the context is not cancelled before the outcome is committed (no early cancel in the finishing function)")
+			continue
+		}
+		cas, fr, isL := latchedFinishErr(fin, errArg)
+		good := isL
+		if isL {
+			for _, cn := range cancels {
+				if !dominates(cas, cn) {
+					good = false
+				}
+			}
+		}
+		msg := "the finishing function cancels the stream context (" + w.At(cancels[0]) + ") and only then competes for the write mutex; the status it sends is its own parameter (" + desc(errArg) + "). A handler parked in SendMsg waiting for flow-control credit holds that mutex, wakes on the cancel, returns the context error and calls the finishing function itself, reaching the mutex first: the RPC that the receive loop failed (window overrun: ResourceExhausted; cancel frame: Canceled) is reported as Unknown 'context canceled'"
+		if isL {
+			msg = "the status is latched in " + fr.String() + " but not before every early cancel of the stream context"
+		}
+		c.check(good, rule, key, w.At(e.Alloc), "latched in "+fr.String()+" by compare-and-swap from nil ("+posOfInstr(w, cas)+") before the context is cancelled", msg)
+	}
+	c.floor(rule, n, 1, "close_stream emit sites in the finishing function")
+}
+
+func posOfInstr(w *World, in ssa.Instruction) string {
+	if in == nil || reflect.ValueOf(in).IsNil() {
+		return "-"
+	}
+	return w.At(in)
 }
